@@ -29,7 +29,7 @@
                                 a path that does not exist: `exit1`; `read` and `parse` return `exit1` and the world (files and
                                 counter) is unchanged (`C13api.step_fail_safe`): nothing is written.
   * `C14_parse_scope_target`    `parse` with an existing scope writes exactly the file
-                                `dir/targetName name "parsed" (scope.map keyText) output`, returns the scoped dict, touches no
+                                `dir/targetName name "parsed" (scope.map keyText) output`, returns the scoped dict (re-typed: `normEs`), touches no
                                 other path; if the serialiser gives up nothing is written.
   * `C17_scope_word_list`, `scope_word_vs_list`, `scope_number_word_vs_list'`
                                 `--scope w` and `--scope [w]` give the same one-element scope for a word without blanks,
